@@ -27,6 +27,11 @@ impl std::fmt::Write for Sink {
     }
 }
 
+/// stand-in for the formatting-heavy panic path of str slicing (`&s[a..b]` off a char boundary): still a panic
+fn slice_fail_stub(_s: &str, _begin: usize, _end: usize) -> ! {
+    panic!("str slice index is out of range or not on a char boundary")
+}
+
 fn promo_of(k: u8) -> Option<Piece> {
     match k {
         0 => None,
@@ -101,6 +106,7 @@ fn ascii_input<const N: usize>() -> ([u8; N], usize) {
 // @ob id=O13.2a props=C13 also=C07 tier=quick kind=bounded bound="every ASCII string of length 0..=4" fn="FromStr for Square" desc="Square::from_str never panics; it succeeds exactly when the first two bytes are a file letter a-h and a rank digit 1-8, returns that square, and the rendering of the result (O13.1a) is the 2-byte prefix of the input: parse(render(sq)) == sq for all 64 squares"
 #[kani::proof]
 #[kani::unwind(8)]
+#[kani::stub(core::str::slice_error_fail, slice_fail_stub)]
 fn c13_square_parse() {
     let (buf, len) = ascii_input::<4>();
     let s = unsafe { std::str::from_utf8_unchecked(&buf[..len]) };
@@ -120,6 +126,7 @@ fn c13_square_parse() {
 // @ob id=O13.2b props=C13 also=C07 tier=quick kind=bounded bound="every ASCII string of length 0..=6" weight=light fn="FromStr for ChessMove" desc="ChessMove::from_str never panics; it succeeds exactly when bytes 0..2 and 2..4 are squares and (length != 5 or byte 4 is one of q r n b); the result has those squares and that promotion (none unless length == 5); the rendering of the result (O13.1b) is a prefix of the input — so parse(render(m)) == m for all 20480 move values"
 #[kani::proof]
 #[kani::unwind(9)]
+#[kani::stub(core::str::slice_error_fail, slice_fail_stub)]
 fn c13_move_parse() {
     let (buf, len) = ascii_input::<6>();
     let s = unsafe { std::str::from_utf8_unchecked(&buf[..len]) };
@@ -174,6 +181,7 @@ fn parse_total(n: usize) {
 // @ob id=O13.3 props=C13 also=C07 tier=thorough kind=bounded bound="every byte string of length 0..=4 that is valid UTF-8 (2-, 3- and 4-byte sequences included)" weight=light fn="FromStr for ChessMove,FromStr for Square" desc="totality on non-ASCII text: neither parser panics on any valid UTF-8 string of up to 4 bytes (char-boundary slicing, chars().last(), Vec<char> indexing)"
 #[kani::proof]
 #[kani::unwind(9)]
+#[kani::stub(core::str::slice_error_fail, slice_fail_stub)]
 fn c13_parse_total_utf8_4() {
     parse_total(4);
 }
@@ -181,6 +189,7 @@ fn c13_parse_total_utf8_4() {
 // @ob id=O13.3t props=C13 also=C07 tier=thorough kind=bounded bound="every valid UTF-8 byte string of length 0..=5" weight=medium fn="FromStr for ChessMove,FromStr for Square" desc="as O13.3 with 5 bytes (covers the length-5 promotion branch with a multi-byte last character)"
 #[kani::proof]
 #[kani::unwind(9)]
+#[kani::stub(core::str::slice_error_fail, slice_fail_stub)]
 fn c13_parse_total_utf8_5() {
     parse_total(5);
 }
@@ -188,6 +197,7 @@ fn c13_parse_total_utf8_5() {
 // @ob id=O13.4 props=C13 also=C07 tier=quick kind=bounded bound="two arbitrary VALID squares (4 ASCII bytes) followed by one arbitrary Unicode scalar value (1-4 bytes)" weight=light fn="FromStr for ChessMove" desc="totality where slicing by byte offsets could cut a character: a well-formed 4-byte move prefix followed by ANY character (multi-byte included) never makes ChessMove::from_str panic; if it succeeds the squares are those of the prefix and a promotion is reported only for a trailing q/r/n/b"
 #[kani::proof]
 #[kani::unwind(12)]
+#[kani::stub(core::str::slice_error_fail, slice_fail_stub)]
 fn c13_parse_total_tail_char() {
     let mut buf = [0u8; 8];
     let (a, b) = (any_sq_u8(), any_sq_u8());
